@@ -693,7 +693,7 @@ Proof.
     inversion Hy; subst y. exact Ed.
 Qed.
 
-(* BEFORE THE FIX: every data file of a constructed group carries [code_merged] *)
+(* BEFORE FIX COMMIT be9bad3: every data file of a constructed group carries [code_merged] *)
 Lemma group_data_merged excl sfx t g f m :
   group_init false excl sfx t = Ok g -> unique_paths (g_sidecars g) -> In (f, m) (g_data g) ->
   m = code_merged (g_sidecars g) f.
@@ -876,6 +876,120 @@ Lemma cli_exit_iff (issue : Type) vs vf g :
 Proof.
   unfold cli_exit. destruct (dataset_validate issue vs vf g); cbn [is_empty]; split; intro H;
     try discriminate; congruence.
+Qed.
+
+(* ------------------------------------------------------------------ the dataset root's own path is irrelevant *)
+
+(* os.walk started at the root given by ANY absolute components (excluded names included) lists
+   exactly the relative walk with the root in front of every path *)
+Lemma os_walk_is_walk_both excl :
+  (forall t rootp, os_walk excl rootp t = map (fun e => (rootp ++ fst e, snd e)) (walk excl t)) /\
+  (forall f rootp, os_walk_forest excl rootp f = map (fun e => (rootp ++ fst e, snd e)) (walk_forest excl f)).
+Proof.
+  apply tree_forest_ind.
+  - intros files subs IH rootp. cbn [os_walk walk map fst snd]. rewrite app_nil_r, IH. reflexivity.
+  - reflexivity.
+  - intros n t IHt r IHr rootp. cbn [os_walk_forest walk_forest].
+    destruct (in_names n excl); [apply IHr|].
+    rewrite map_app, IHt, IHr, map_map. f_equal. apply map_ext. intros e. cbn [fst snd].
+    rewrite <- app_assoc. reflexivity.
+Qed.
+
+Lemma os_walk_is_walk excl rootp t :
+  os_walk excl rootp t = map (fun e => (rootp ++ fst e, snd e)) (walk excl t).
+Proof. apply os_walk_is_walk_both. Qed.
+
+(* hence the listing relative to the root is the same for every root path *)
+Lemma os_walk_root_independent excl rootp t :
+  map (fun e => (skipn (length rootp) (fst e), snd e)) (os_walk excl rootp t) = walk excl t.
+Proof.
+  rewrite os_walk_is_walk, map_map. rewrite <- (map_id (walk excl t)) at 2. apply map_ext.
+  intros [p fs]. cbn [fst snd]. f_equal.
+  induction rootp as [|x r IH]; [reflexivity | exact IH].
+Qed.
+
+Lemma path_eqb_app p a b : path_eqb (p ++ a) (p ++ b) = path_eqb a b.
+Proof. induction p as [|x p IH]; [reflexivity|]. cbn. rewrite str_eqb_refl. exact IH. Qed.
+
+Lemma commonpath_app p a b : commonpath (p ++ a) (p ++ b) = p ++ commonpath a b.
+Proof. induction p as [|x p IH]; [reflexivity|]. cbn. rewrite str_eqb_refl, IH. reflexivity. Qed.
+
+(* the applicability test on real paths = the test on paths relative to the root *)
+Lemma is_sidecar_for_abs rootp s x :
+  is_sidecar_for (abs_file rootp s) (abs_file rootp x) = is_sidecar_for s x.
+Proof.
+  unfold is_sidecar_for, same_file, full_path, abs_file. cbn [b_dir b_name b_suffix b_ents].
+  rewrite path_eqb_app, <- !app_assoc, commonpath_app, path_eqb_app. reflexivity.
+Qed.
+
+Lemma find_map {A B} (P : B -> bool) (g : A -> B) l :
+  find P (map g l) = option_map g (find (fun x => P (g x)) l).
+Proof.
+  induction l as [|x l IH]; [reflexivity|]. cbn. destruct (P (g x)); [reflexivity | exact IH].
+Qed.
+
+Lemma find_ext' {A} (P Q : A -> bool) l : (forall x, P x = Q x) -> find P l = find Q l.
+Proof. intros H. induction l as [|x l IH]; [reflexivity|]. cbn. rewrite H, IH. reflexivity. Qed.
+
+(* get_sidecars_from_path on real paths (current_path starting at the root) = the chain on relative
+   paths with the root put in front *)
+Lemma chain_aux_abs rootp sc obj : forall rest cur,
+  chain_aux (map (abs_file rootp) sc) (abs_file rootp obj) (rootp ++ cur) rest
+  = map (abs_file rootp) (chain_aux sc obj cur rest).
+Proof.
+  assert (Hpick : forall cur,
+    get_sidecar_for_obj (map (abs_file rootp) sc) (abs_file rootp obj) (rootp ++ cur)
+    = option_map (abs_file rootp) (get_sidecar_for_obj sc obj cur)).
+  { intros cur. unfold get_sidecar_for_obj, dir_sidecars. rewrite filter_map_comm, find_map.
+    rewrite (filter_ext (fun x => path_eqb (b_dir (abs_file rootp x)) (rootp ++ cur))
+                        (fun s => path_eqb (b_dir s) cur))
+      by (intros s; unfold abs_file; cbn [b_dir]; apply path_eqb_app).
+    f_equal. apply find_ext'. intros s. apply is_sidecar_for_abs. }
+  induction rest as [|c r IH]; intros cur; cbn [chain_aux]; rewrite Hpick.
+  - rewrite !app_nil_r. destruct (get_sidecar_for_obj sc obj cur); reflexivity.
+  - rewrite map_app, <- IH, <- app_assoc. destruct (get_sidecar_for_obj sc obj cur); reflexivity.
+Qed.
+
+Lemma chain_root_independent rootp sc obj :
+  chain_aux (map (abs_file rootp) sc) (abs_file rootp obj) rootp (b_dir obj)
+  = map (abs_file rootp) (chain sc obj).
+Proof.
+  unfold chain, get_sidecars_from_path. rewrite <- (chain_aux_abs rootp sc obj (b_dir obj) []).
+  rewrite app_nil_r. reflexivity.
+Qed.
+
+(* ------------------------------------------------------------------ nothing is skipped by the validation driver *)
+
+Lemma every_sidecar_validated (issue : Type) vs vf fixed excl sfx t g s i :
+  group_init fixed excl sfx t = Ok g -> In s (g_sidecars g) ->
+  In i (vs (b_name s) (merge_dicts (map raw_of (own_chain (g_sidecars g) s)))) ->
+  In i (dataset_validate issue vs vf g).
+Proof.
+  intros Hg Hs Hi. unfold dataset_validate, validate_sidecars. apply in_or_app. left.
+  rewrite (group_sidecar_merged _ _ _ _ _ Hg). apply in_flat_map.
+  exists (s, merge_dicts (map raw_of (own_chain (g_sidecars g) s))). split; [|exact Hi].
+  apply in_map_iff. exists s. auto.
+Qed.
+
+Lemma every_data_file_validated (issue : Type) vs vf excl sfx t g f m i :
+  group_init true excl sfx t = Ok g -> In (f, m) (g_data g) ->
+  In i (vf f (spec_merged (g_sidecars g) f)) ->
+  In i (dataset_validate issue vs vf g).
+Proof.
+  intros Hg Hf Hi. unfold dataset_validate, validate_datafiles. apply in_or_app. right.
+  apply in_flat_map. exists (f, m). split; [exact Hf|]. cbn [fst snd].
+  rewrite (merged_is_fold _ _ _ _ _ _ Hg Hf). exact Hi.
+Qed.
+
+(* every issue of the dataset comes from one of those validations: nothing is added either *)
+Lemma dataset_issue_origin (issue : Type) vs vf excl sfx t g i :
+  group_init true excl sfx t = Ok g -> In i (dataset_validate issue vs vf g) ->
+  (exists s, In s (g_sidecars g) /\ In i (vs (b_name s) (merge_dicts (map raw_of (own_chain (g_sidecars g) s))))) \/
+  (exists f m, In (f, m) (g_data g) /\ In i (vf f (spec_merged (g_sidecars g) f))).
+Proof.
+  intros Hg Hi. rewrite (dataset_issues issue vs vf _ _ _ _ Hg) in Hi. apply in_app_or in Hi as [Hi|Hi].
+  - left. apply in_flat_map in Hi as [s [Hs Hi]]. exists s. auto.
+  - right. apply in_flat_map in Hi as [[f m] [Hf Hi]]. exists f, m. auto.
 Qed.
 
 (* ------------------------------------------------------------------ concrete trees *)
